@@ -85,6 +85,10 @@ def export_format(subtree, **params):
     """
     if subtree.data['edge'] == None:
         subtree.data['edge'] = '--'
+    if subtree.data['morph'] == None:
+        subtree.data['morph'] = "--"
+    if 'export_four' in params and subtree.data['lemma'] == None:
+        subtree.data['lemma'] = trees.DEFAULT_LEMMA
     label = trees.get_label(subtree, **params)
     if not 'export_four' in params:
         if subtree.data['morph'] == None:
